@@ -25,7 +25,7 @@ def main():
     dst = os.path.join(VERIF, "seeded", sid)
     os.makedirs(dst, exist_ok=True)
     for f in ("patch.diff", "demo.cxx", "README.md"):
-        if os.path.exists(os.path.join(src, f)):
+        if os.path.exists(os.path.join(src, f)) and os.path.abspath(src) != os.path.abspath(dst):
             shutil.copy(os.path.join(src, f), os.path.join(dst, f))
     wt = tempfile.mkdtemp(prefix="ipr-seed.", dir="/tmp")
     os.rmdir(wt)
